@@ -242,8 +242,7 @@ def run(chk):
     ok, log = chk.prove(["extract/Extract_C03.vo", "extract/Extract_ED.vo"])
     chk.trusted += ["extraction (ExtrOcamlBasic, ExtrOcamlNatInt, ExtrOCamlFloats), ocaml/driver_c03.ml (parsing, sparse<->dense, printing), harness/h_ed.cpp, tools/edlib.py",
                     "mathcomp 1.15 (ssreflect, algebra) as installed",
-                    "the correspondence between the list-level model of the two loops (HPart.fop_fill) and the matrices LeftMat/RightMat of Rotate.v is by inspection of two "
-                    "three-line definitions plus the per-run agreement model == specification == implementation",
+                    "rotation_formula_model is about the model at an exact field (zero tests exact); the run-time instance is binary64 (compared with 1e-12)",
                     "anticommutation relations of the Jordan-Wigner matrices in the Fock basis: hypotheses of car_eigenbasis_partial (C05: CAR.v on basis states); "
                     "unitarity of the assembled eigenvectors: C03's per-run certificate"]
     chk.assume += ["the partition is the one dumped by StatesClassification (soundness and single-target property are C07); the check verifies per run that no Jordan-Wigner "
